@@ -96,6 +96,15 @@ type Conn struct {
 	// AsyncCallbacks counts the handler calls that were dispatched.
 	AsyncCallbacks int
 
+	// Blocking: a connection that hands messages over with a blocking send,
+	// holding a delivery lock that Close needs too (restest.MockConn is
+	// written like that, and the Conn interface allows it): a full channel
+	// holds up the deliveries behind it and a concurrent Close until the
+	// receiver has made room. Only one delivery is in flight at a time.
+	Blocking bool
+	blk      chan struct{}
+	inflight *Delivery
+
 	// sendSeq orders the scheduler's channel sends before Close, as
 	// nats.Conn.Close waits for its reader goroutine: the scheduler only
 	// ever adds to it, Close only loads it.
@@ -161,7 +170,7 @@ func (c *Conn) Reconnected() {
 }
 
 // New creates a connection.
-func New(sim *sched.Sim) *Conn { return &Conn{Sim: sim} }
+func New(sim *sched.Sim) *Conn { return &Conn{Sim: sim, blk: make(chan struct{}, 1)} }
 
 func (c *Conn) yield(point, arg string) {
 	if c.NoYield || c.Sim == nil {
@@ -284,6 +293,10 @@ func (c *Conn) subscribe(subject, queue string, ch chan *nats.Msg) (*nats.Subscr
 func (c *Conn) Close() {
 	c.yield("conn.Close", "")
 	c.sendSeq.Load()
+	if c.Blocking {
+		c.blk <- struct{}{}
+		defer func() { <-c.blk }()
+	}
 	c.mu.Lock()
 	defer c.mu.Unlock()
 	c.CloseCount++
@@ -397,6 +410,10 @@ func (c *Conn) PendingInbound() int {
 	defer sched.RaceEnable()
 	c.mu.Lock()
 	defer c.mu.Unlock()
+	if c.Blocking && c.inflight != nil {
+		// the delivery in flight holds up those behind it
+		return 0
+	}
 	return len(c.Inbound)
 }
 
@@ -424,6 +441,9 @@ func (c *Conn) DeliverHead(lose bool) *Delivery {
 		c.Stats.Lost++
 	case !d.Sub.Active && !d.Sub.Draining:
 		d.Dropped = "unsub"
+	case c.Blocking:
+		c.inflight = d
+		go c.blockingSend(d)
 	default:
 		// the hand-over of the message is a real synchronisation event (as it
 		// is between nats.go's reader goroutine and the receiver); the
@@ -455,6 +475,27 @@ func (c *Conn) trySend(d *Delivery) {
 		c.Stats.SlowDrops++
 	}
 	c.sendSeq.Add(1)
+}
+
+// blockingSend hands the message over with a blocking send, holding the
+// delivery lock (blocking connections only, never in race builds).
+func (c *Conn) blockingSend(d *Delivery) {
+	c.blk <- struct{}{}
+	defer func() {
+		if v := recover(); v != nil {
+			c.mu.Lock()
+			c.Stats.DeliveryPanics++
+			c.mu.Unlock()
+		}
+		c.mu.Lock()
+		c.inflight = nil
+		c.mu.Unlock()
+		<-c.blk
+	}()
+	d.Sub.Ch <- d.Msg
+	c.mu.Lock()
+	c.Stats.Delivered++
+	c.mu.Unlock()
 }
 
 //go:norace
